@@ -213,6 +213,48 @@ def class_names(path: str) -> list:
     return [n.name for n in tree.body if isinstance(n, ast.ClassDef)]
 
 
+def _has_quoted(node) -> bool:
+    """an annotation names a class by a quoted forward reference (string constants inside Literal[...] do not count)"""
+    if isinstance(node, ast.Subscript) and isinstance(node.value, ast.Name) and node.value.id == "Literal":
+        return False
+    if isinstance(node, ast.Constant) and isinstance(node.value, str):
+        return True
+    return any(_has_quoted(ch) for ch in ast.iter_child_nodes(node))
+
+
+def read_rebuilds(path: str):
+    """(classes [[name, [quoted?...]]...] in order, model_rebuild() calls in order) of one generated module"""
+    try:
+        tree = ast.parse(open(path).read())
+    except (OSError, SyntaxError):
+        return None
+    classes, calls = [], []
+    for n in tree.body:
+        if isinstance(n, ast.ClassDef):
+            classes.append([n.name, [_has_quoted(st.annotation) for st in n.body if isinstance(st, ast.AnnAssign)]])
+        elif (isinstance(n, ast.Expr) and isinstance(n.value, ast.Call) and isinstance(n.value.func, ast.Attribute)
+              and n.value.func.attr == "model_rebuild" and isinstance(n.value.func.value, ast.Name)):
+            calls.append(n.value.func.value.id)
+    return classes, calls
+
+
+def rebuild_commands(case: "Case", target: str):
+    """K1 for model_rebuild placement: one model command per operation module and one for the fragments module"""
+    from ariadne_codegen.utils import str_to_pascal_case
+
+    out = []
+    fm = case.sc.config.get("fragments_module_name", "fragments")
+    tops = [str_to_pascal_case(f.name.value) for f in case.frags]
+    for mod in sorted({m for m in case.modules if m}) + [fm]:
+        r = read_rebuilds(os.path.join(target, mod + ".py"))
+        if r is None:
+            continue
+        classes, calls = r
+        names = [c[0] for c in classes]
+        out.append((mod, mod == fm, calls, [Sym("rebuilds"), [t for t in tops if t in names], classes]))
+    return out
+
+
 def read_init(target: str) -> dict:
     """from-imports (module -> names, level) and the literal __all__ of the generated __init__.py"""
     out = {"imports": {}, "all": None, "error": None, "other": 0}
@@ -673,11 +715,21 @@ def run(ctx):
         lap("generate+load")
         cmds = scen.parallel(list(zip(cases, gens)), lambda cg: model_command(cg[0], cg[1].res.get("target") if cg[1].ok else None), jobs=8)
         mres = model.batch("C04", cmds)
+        rb = [(i, x) for i, (c, g) in enumerate(zip(cases, gens)) if g.ok and not c.sc.config.get("plugins")
+              for x in rebuild_commands(c, g.res["target"])]
+        rres = model.batch("C04", [x[3] for _i, x in rb])
+        rebuild_diffs = {}
+        for (i, (mod, is_frag, calls, _cmd)), r in zip(rb, rres):
+            want = r[1] if is_frag else r[0]
+            run.dist("k1_rebuild_modules", "fragments" if is_frag else "operation")
+            if model.is_error(r) or list(want) != calls:
+                rebuild_diffs.setdefault(i, []).append(f"{mod}.py: model_rebuild() calls {calls}, model {want}")
         lap("model")
         verdicts = [judge(c, g, ld) for c, g, ld in zip(cases, gens, loads)]
         to_shrink = []
         seen_classes = set()
-        for c, g, ld, m, v in zip(cases, gens, loads, mres, verdicts):
+        for i, (c, g, ld, m, v) in enumerate(zip(cases, gens, loads, mres, verdicts)):
+            v["rebuild_diffs"] = rebuild_diffs.get(i, [])
             account(ctx, c, g, ld, m, v, to_shrink, seen_classes)
         lap("judge+account")
         search(ctx, to_shrink, scratch)
@@ -779,6 +831,7 @@ def account(ctx, c: Case, g, ld, m, v, to_shrink, seen_classes):
     # ---- K1 ----
     # the layout model has no plugins: cases with a plugin that writes its own module are K3 only
     k1 = k1_compare(c, g, ld, m, v) if not c.sc.config.get("plugins") else []
+    k1 += [("k1-rebuilds", d) for d in v.get("rebuild_diffs", [])]
     if c.sc.config.get("plugins"):
         run.dist("k1", "skipped:plugin-case")
     if c.stream == "name_collisions":
